@@ -9,6 +9,11 @@ type nat =
 | O
 | S of nat
 
+(** val snd : ('a1 * 'a2) -> 'a2 **)
+
+let snd = function
+| (_, y) -> y
+
 (** val length : 'a1 list -> nat **)
 
 let rec length = function
@@ -282,6 +287,12 @@ module Pos =
 
   let to_nat x =
     iter_op Coq__1.add x (S O)
+
+  (** val of_succ_nat : nat -> positive **)
+
+  let rec of_succ_nat = function
+  | O -> XH
+  | S x -> succ (of_succ_nat x)
  end
 
 module Z =
@@ -421,6 +432,12 @@ module Z =
   | Zpos p0 -> Pos.to_nat p0
   | _ -> O
 
+  (** val of_nat : nat -> z **)
+
+  let of_nat = function
+  | O -> Z0
+  | S n0 -> Zpos (Pos.of_succ_nat n0)
+
   (** val pos_div_eucl : positive -> z -> z * z **)
 
   let rec pos_div_eucl a0 b =
@@ -477,6 +494,8 @@ module Z =
 type kind =
 | Rd
 | Wr
+| Ac
+| Co
 
 type pc =
 | Idle
@@ -540,6 +559,16 @@ type res =
 | RPipe
 | RTimedOut
 | RCanceled
+| RAcc of nat
+| RConn
+| RErr of nat
+
+type cstate =
+| CNone
+| CProg
+| CEst
+| CRef of nat
+| CConn
 
 type actor = { apc : pc; afd : nat; akind : kind; acn : bool;
                ato : nat option; adat : nat list; an : nat; apara : bool;
@@ -553,12 +582,15 @@ type tent = { tstate : tst; tdl : nat; tev : nat option; tmin : nat }
 type pipe = { buf : nat list; wshut : bool; sent : nat list; rcvd : nat list;
               eof : bool }
 
+type ksock = { kq : nat list; kst : cstate; ktgt : nat; kdeliv : bool;
+               kest : nat list; kacc : nat list }
+
 type st = { now : nat; p : (nat -> pipe); pend : (nat -> bool);
             flag : (nat -> bool); co : (nat -> nat option);
             tmr : (nat -> nat option); busy : (nat -> nat option);
             closed : (nat -> bool); a : (nat -> actor); sb : (nat -> sub0);
             nexts : nat; t : (nat -> tent); nextt : nat;
-            sel : (nat -> selst); cn : (nat -> cnst) }
+            sel : (nat -> selst); cn : (nat -> cnst); kn : (nat -> ksock) }
 
 (** val upd : (nat -> 'a1) -> nat -> 'a1 -> nat -> 'a1 **)
 
@@ -584,6 +616,9 @@ type action =
 | Shutdown of nat
 | Spurious of nat
 | Close of nat
+| Establish of nat
+| Refuse of nat * nat
+| Deliver of nat
 
 (** val mkA :
     pc -> nat -> kind -> bool -> nat option -> nat list -> nat -> bool ->
@@ -671,6 +706,35 @@ let t_null x unl =
   { tstate = (if unl then TGone else x.tstate); tdl = x.tdl; tev = None;
     tmin = x.tmin }
 
+(** val k_st : ksock -> cstate -> ksock **)
+
+let k_st x c =
+  { kq = x.kq; kst = c; ktgt = x.ktgt; kdeliv = x.kdeliv; kest = x.kest;
+    kacc = x.kacc }
+
+(** val k_start : ksock -> cstate -> nat -> bool -> ksock **)
+
+let k_start x c l d =
+  { kq = x.kq; kst = c; ktgt = l; kdeliv = d; kest = x.kest; kacc = x.kacc }
+
+(** val k_deliv : ksock -> ksock **)
+
+let k_deliv x =
+  { kq = x.kq; kst = x.kst; ktgt = x.ktgt; kdeliv = true; kest = x.kest;
+    kacc = x.kacc }
+
+(** val k_push : ksock -> nat -> ksock **)
+
+let k_push x c =
+  { kq = (app x.kq (c :: [])); kst = x.kst; ktgt = x.ktgt; kdeliv = x.kdeliv;
+    kest = (app x.kest (c :: [])); kacc = x.kacc }
+
+(** val k_pop : ksock -> nat -> nat list -> ksock **)
+
+let k_pop x c q =
+  { kq = q; kst = x.kst; ktgt = x.ktgt; kdeliv = x.kdeliv; kest = x.kest;
+    kacc = (app x.kacc (c :: [])) }
+
 (** val t_pop : tent -> tent **)
 
 let t_pop x =
@@ -680,102 +744,108 @@ let t_pop x =
     nat -> (nat -> pipe) -> (nat -> bool) -> (nat -> bool) -> (nat -> nat
     option) -> (nat -> nat option) -> (nat -> nat option) -> (nat -> bool) ->
     (nat -> actor) -> (nat -> sub0) -> nat -> (nat -> tent) -> nat -> (nat ->
-    selst) -> (nat -> cnst) -> st **)
+    selst) -> (nat -> cnst) -> (nat -> ksock) -> st **)
 
-let mk n p0 pe fl c tm0 bu cl a0 s ns t0 nt se cn0 =
+let mk n p0 pe fl c tm0 bu cl a0 s ns t0 nt se cn0 kn0 =
   { now = n; p = p0; pend = pe; flag = fl; co = c; tmr = tm0; busy = bu;
     closed = cl; a = a0; sb = s; nexts = ns; t = t0; nextt = nt; sel = se;
-    cn = cn0 }
+    cn = cn0; kn = kn0 }
 
 (** val wnow : st -> nat -> st **)
 
 let wnow s v =
   mk v s.p s.pend s.flag s.co s.tmr s.busy s.closed s.a s.sb s.nexts s.t
-    s.nextt s.sel s.cn
+    s.nextt s.sel s.cn s.kn
 
 (** val wP : st -> (nat -> pipe) -> st **)
 
 let wP s v =
   mk s.now v s.pend s.flag s.co s.tmr s.busy s.closed s.a s.sb s.nexts s.t
-    s.nextt s.sel s.cn
+    s.nextt s.sel s.cn s.kn
 
 (** val wpend : st -> (nat -> bool) -> st **)
 
 let wpend s v =
   mk s.now s.p v s.flag s.co s.tmr s.busy s.closed s.a s.sb s.nexts s.t
-    s.nextt s.sel s.cn
+    s.nextt s.sel s.cn s.kn
 
 (** val wflag : st -> (nat -> bool) -> st **)
 
 let wflag s v =
   mk s.now s.p s.pend v s.co s.tmr s.busy s.closed s.a s.sb s.nexts s.t
-    s.nextt s.sel s.cn
+    s.nextt s.sel s.cn s.kn
 
 (** val wco : st -> (nat -> nat option) -> st **)
 
 let wco s v =
   mk s.now s.p s.pend s.flag v s.tmr s.busy s.closed s.a s.sb s.nexts s.t
-    s.nextt s.sel s.cn
+    s.nextt s.sel s.cn s.kn
 
 (** val wtmr : st -> (nat -> nat option) -> st **)
 
 let wtmr s v =
   mk s.now s.p s.pend s.flag s.co v s.busy s.closed s.a s.sb s.nexts s.t
-    s.nextt s.sel s.cn
+    s.nextt s.sel s.cn s.kn
 
 (** val wbusy : st -> (nat -> nat option) -> st **)
 
 let wbusy s v =
   mk s.now s.p s.pend s.flag s.co s.tmr v s.closed s.a s.sb s.nexts s.t
-    s.nextt s.sel s.cn
+    s.nextt s.sel s.cn s.kn
 
 (** val wclosed : st -> (nat -> bool) -> st **)
 
 let wclosed s v =
   mk s.now s.p s.pend s.flag s.co s.tmr s.busy v s.a s.sb s.nexts s.t s.nextt
-    s.sel s.cn
+    s.sel s.cn s.kn
 
 (** val wA : st -> (nat -> actor) -> st **)
 
 let wA s v =
   mk s.now s.p s.pend s.flag s.co s.tmr s.busy s.closed v s.sb s.nexts s.t
-    s.nextt s.sel s.cn
+    s.nextt s.sel s.cn s.kn
 
 (** val wS : st -> (nat -> sub0) -> st **)
 
 let wS s v =
   mk s.now s.p s.pend s.flag s.co s.tmr s.busy s.closed s.a v s.nexts s.t
-    s.nextt s.sel s.cn
+    s.nextt s.sel s.cn s.kn
 
 (** val wnexts : st -> nat -> st **)
 
 let wnexts s v =
   mk s.now s.p s.pend s.flag s.co s.tmr s.busy s.closed s.a s.sb v s.t
-    s.nextt s.sel s.cn
+    s.nextt s.sel s.cn s.kn
 
 (** val wT : st -> (nat -> tent) -> st **)
 
 let wT s v =
   mk s.now s.p s.pend s.flag s.co s.tmr s.busy s.closed s.a s.sb s.nexts v
-    s.nextt s.sel s.cn
+    s.nextt s.sel s.cn s.kn
 
 (** val wnextt : st -> nat -> st **)
 
 let wnextt s v =
   mk s.now s.p s.pend s.flag s.co s.tmr s.busy s.closed s.a s.sb s.nexts s.t
-    v s.sel s.cn
+    v s.sel s.cn s.kn
 
 (** val wSel : st -> (nat -> selst) -> st **)
 
 let wSel s v =
   mk s.now s.p s.pend s.flag s.co s.tmr s.busy s.closed s.a s.sb s.nexts s.t
-    s.nextt v s.cn
+    s.nextt v s.cn s.kn
 
 (** val wCn : st -> (nat -> cnst) -> st **)
 
 let wCn s v =
   mk s.now s.p s.pend s.flag s.co s.tmr s.busy s.closed s.a s.sb s.nexts s.t
-    s.nextt s.sel v
+    s.nextt s.sel v s.kn
+
+(** val wKn : st -> (nat -> ksock) -> st **)
+
+let wKn s v =
+  mk s.now s.p s.pend s.flag s.co s.tmr s.busy s.closed s.a s.sb s.nexts s.t
+    s.nextt s.sel s.cn v
 
 (** val idle_actor : actor **)
 
@@ -790,19 +860,34 @@ let init =
     None) (fun _ -> None) (fun _ -> false) (fun _ -> idle_actor) (fun _ ->
     { spc_ = SDone; sa = O; sfd = O; sto = None; scn = false }) O (fun _ ->
     { tstate = TFree; tdl = O; tev = None; tmin = O }) O (fun _ -> SIdle)
-    (fun _ -> CnIdle)
+    (fun _ -> CnIdle) (fun _ -> { kq = []; kst = CNone; ktgt = O; kdeliv =
+    false; kest = []; kacc = [] })
 
 (** val pipe_of : (nat -> nat) -> kind -> nat -> nat **)
 
 let pipe_of peer k f =
   match k with
   | Rd -> peer f
-  | Wr -> f
+  | _ -> f
+
+(** val enqueue : (nat -> ksock) -> nat -> nat -> nat -> ksock **)
+
+let enqueue kn0 l c =
+  upd kn0 l (k_push (kn0 l) c)
+
+(** val q_edge : (nat -> ksock) -> nat -> nat option **)
+
+let q_edge kn0 l =
+  match (kn0 l).kq with
+  | [] -> Some l
+  | _ :: _ -> None
 
 type sysres =
 | SysDone of res * pipe * nat option
 | SysAgain
 | SysBad
+| SysK of res * (nat -> ksock) * nat option
+| SysAgainK of (nat -> ksock)
 
 (** val syscall : nat -> (nat -> nat) -> st -> actor -> nat -> sysres **)
 
@@ -842,7 +927,29 @@ let syscall cap peer s x m =
                       (match q.buf with
                        | [] -> Some (peer p0)
                        | _ :: _ -> None))
-               else SysBad)
+               else SysBad
+   | Ac ->
+     (match (s.kn x.afd).kq with
+      | [] -> SysAgain
+      | c :: q' ->
+        SysK ((RAcc c), (upd s.kn x.afd (k_pop (s.kn x.afd) c q')), None))
+   | Co ->
+     let f = x.afd in
+     let k = s.kn f in
+     (match k.kst with
+      | CNone ->
+        (match m with
+         | O -> SysAgainK (upd s.kn f (k_start k CProg x.an false))
+         | S n ->
+           (match n with
+            | O ->
+              let kn1 = upd s.kn f (k_start k CConn x.an true) in
+              SysK (RConn, (enqueue kn1 x.an f), (q_edge kn1 x.an))
+            | S e -> SysK ((RErr e), s.kn, None)))
+      | CProg -> SysAgain
+      | CEst -> SysK (RConn, (upd s.kn f (k_st k CConn)), None)
+      | CRef e -> SysK ((RErr e), (upd s.kn f (k_st k CNone)), None)
+      | CConn -> SysK (RConn, s.kn, None)))
 
 (** val set_pend : st -> nat option -> st **)
 
@@ -920,14 +1027,17 @@ let step cap peer selof fixB fixD calm s = function
               | Rd -> Nat.eqb n O
               | Wr -> (match l with
                        | [] -> true
-                       | _ :: _ -> false))
+                       | _ :: _ -> false)
+              | _ -> false)
         then None
         else Some
                (wbusy
                  (wA s
                    (upd s.a a0
-                     (mkA PReset f k cn0 to0 l n x.apara x.acanc x.acio
-                       x.aawake s.now x.ahome x.alast)))
+                     (mkA (match k with
+                           | Co -> PTry
+                           | _ -> PReset) f k cn0 to0 l n x.apara x.acanc
+                       x.acio x.aawake s.now x.ahome x.alast)))
                  (upd s.busy f (Some a0))))
    | _ -> None)
 | Step (a0, m) ->
@@ -942,7 +1052,9 @@ let step cap peer selof fixB fixD calm s = function
           (set_pend
             (wP (finish s a0 r) (upd s.p (pipe_of peer x.akind x.afd) p')) ev)
       | SysAgain -> Some (wA s (upd s.a a0 (a_pc x PYield)))
-      | SysBad -> None)
+      | SysBad -> None
+      | SysK (r, kn', ev) -> Some (set_pend (wKn (finish s a0 r) kn') ev)
+      | SysAgainK kn' -> Some (wKn (wA s (upd s.a a0 (a_pc x PYield))) kn'))
    | PYield ->
      if x.acanc
      then Some (die s a0)
@@ -974,7 +1086,9 @@ let step cap peer selof fixB fixD calm s = function
           (set_pend
             (wP (finish s a0 r) (upd s.p (pipe_of peer x.akind x.afd) p')) ev)
       | SysAgain -> Some (wA s (upd s.a a0 (a_pc x LChk)))
-      | SysBad -> None)
+      | SysBad -> None
+      | SysK (r, kn', ev) -> Some (set_pend (wKn (finish s a0 r) kn') ev)
+      | SysAgainK kn' -> Some (wKn (wA s (upd s.a a0 (a_pc x LChk))) kn'))
    | LChk ->
      Some (wA s (upd s.a a0 (a_pc x (if s.flag x.afd then LRes else PYield))))
    | _ -> None)
@@ -1163,6 +1277,30 @@ let step cap peer selof fixB fixD calm s = function
      if s.closed f
      then None
      else Some (wclosed (disarm s f false) (upd s.closed f true)))
+| Establish f ->
+  (match (s.kn f).kst with
+   | CProg ->
+     Some
+       (wpend (wKn s (upd s.kn f (k_st (s.kn f) CEst))) (upd s.pend f true))
+   | _ -> None)
+| Refuse (f, e) ->
+  (match (s.kn f).kst with
+   | CProg ->
+     Some
+       (wpend (wKn s (upd s.kn f (k_st (s.kn f) (CRef e))))
+         (upd s.pend f true))
+   | _ -> None)
+| Deliver f ->
+  if (&&) (negb (s.kn f).kdeliv)
+       (match (s.kn f).kst with
+        | CEst -> true
+        | CConn -> true
+        | _ -> false)
+  then let kn1 = upd s.kn f (k_deliv (s.kn f)) in
+       Some
+       (set_pend (wKn s (enqueue kn1 (s.kn f).ktgt f))
+         (q_edge kn1 (s.kn f).ktgt))
+  else None
 
 (** val peerv : nat -> nat **)
 
@@ -1179,6 +1317,9 @@ type tmode =
 | MRun of nat
 | MKer of nat
 | MKerX
+| MProxy of nat
+| MProxyP
+| MRunP of nat
 
 type aux = { tm : (nat -> tmode); cmap : (z * nat) list; nco : nat;
              oflag : (z * nat) list; oco : (z * nat) list; preflag : 
@@ -1186,7 +1327,8 @@ type aux = { tm : (nat -> tmode); cmap : (z * nat) list; nco : nat;
              selcur : (nat -> nat option); selpre : (nat -> z option);
              fds : nat list; dgr : (nat -> bool); amap : (nat -> nat option);
              cpend : (nat -> nat option); ctgt : (nat -> nat option);
-             precan : nat list; cnull : (nat -> nat option); seen : nat list }
+             precan : nat list; cnull : (nat -> nat option); seen : nat list;
+             dang : nat list; tsent : nat list; prox : nat list }
 
 type ast = { ms : st; ax : aux; acap : nat; fresh : bool }
 
@@ -1197,7 +1339,8 @@ let aux0 =
     preflag = []; selthr = (fun _ -> None); selcur = (fun _ -> None);
     selpre = (fun _ -> None); fds = []; dgr = (fun _ -> false); amap =
     (fun _ -> None); cpend = (fun _ -> None); ctgt = (fun _ -> None);
-    precan = []; cnull = (fun _ -> None); seen = [] }
+    precan = []; cnull = (fun _ -> None); seen = []; dang = []; tsent = [];
+    prox = [] }
 
 (** val capv : nat **)
 
@@ -1263,7 +1406,8 @@ let set_tm x v =
   { tm = v; cmap = x.cmap; nco = x.nco; oflag = x.oflag; oco = x.oco;
     preflag = x.preflag; selthr = x.selthr; selcur = x.selcur; selpre =
     x.selpre; fds = x.fds; dgr = x.dgr; amap = x.amap; cpend = x.cpend;
-    ctgt = x.ctgt; precan = x.precan; cnull = x.cnull; seen = x.seen }
+    ctgt = x.ctgt; precan = x.precan; cnull = x.cnull; seen = x.seen; dang =
+    x.dang; tsent = x.tsent; prox = x.prox }
 
 (** val set_cmap : aux -> (z * nat) list -> nat -> aux **)
 
@@ -1271,7 +1415,8 @@ let set_cmap x v n =
   { tm = x.tm; cmap = v; nco = n; oflag = x.oflag; oco = x.oco; preflag =
     x.preflag; selthr = x.selthr; selcur = x.selcur; selpre = x.selpre; fds =
     x.fds; dgr = x.dgr; amap = x.amap; cpend = x.cpend; ctgt = x.ctgt;
-    precan = x.precan; cnull = x.cnull; seen = x.seen }
+    precan = x.precan; cnull = x.cnull; seen = x.seen; dang = x.dang; tsent =
+    x.tsent; prox = x.prox }
 
 (** val set_oflag : aux -> (z * nat) list -> z list -> aux **)
 
@@ -1279,7 +1424,8 @@ let set_oflag x v p0 =
   { tm = x.tm; cmap = x.cmap; nco = x.nco; oflag = v; oco = x.oco; preflag =
     p0; selthr = x.selthr; selcur = x.selcur; selpre = x.selpre; fds = x.fds;
     dgr = x.dgr; amap = x.amap; cpend = x.cpend; ctgt = x.ctgt; precan =
-    x.precan; cnull = x.cnull; seen = x.seen }
+    x.precan; cnull = x.cnull; seen = x.seen; dang = x.dang; tsent = x.tsent;
+    prox = x.prox }
 
 (** val set_oco : aux -> (z * nat) list -> aux **)
 
@@ -1287,7 +1433,8 @@ let set_oco x v =
   { tm = x.tm; cmap = x.cmap; nco = x.nco; oflag = x.oflag; oco = v;
     preflag = x.preflag; selthr = x.selthr; selcur = x.selcur; selpre =
     x.selpre; fds = x.fds; dgr = x.dgr; amap = x.amap; cpend = x.cpend;
-    ctgt = x.ctgt; precan = x.precan; cnull = x.cnull; seen = x.seen }
+    ctgt = x.ctgt; precan = x.precan; cnull = x.cnull; seen = x.seen; dang =
+    x.dang; tsent = x.tsent; prox = x.prox }
 
 (** val set_sel :
     aux -> (nat -> nat option) -> (nat -> nat option) -> (nat -> z option) ->
@@ -1297,7 +1444,8 @@ let set_sel x v c p0 =
   { tm = x.tm; cmap = x.cmap; nco = x.nco; oflag = x.oflag; oco = x.oco;
     preflag = x.preflag; selthr = v; selcur = c; selpre = p0; fds = x.fds;
     dgr = x.dgr; amap = x.amap; cpend = x.cpend; ctgt = x.ctgt; precan =
-    x.precan; cnull = x.cnull; seen = x.seen }
+    x.precan; cnull = x.cnull; seen = x.seen; dang = x.dang; tsent = x.tsent;
+    prox = x.prox }
 
 (** val set_fds : aux -> nat list -> (nat -> bool) -> nat list -> aux **)
 
@@ -1305,7 +1453,8 @@ let set_fds x v d s =
   { tm = x.tm; cmap = x.cmap; nco = x.nco; oflag = x.oflag; oco = x.oco;
     preflag = x.preflag; selthr = x.selthr; selcur = x.selcur; selpre =
     x.selpre; fds = v; dgr = d; amap = x.amap; cpend = x.cpend; ctgt =
-    x.ctgt; precan = x.precan; cnull = x.cnull; seen = s }
+    x.ctgt; precan = x.precan; cnull = x.cnull; seen = s; dang = x.dang;
+    tsent = x.tsent; prox = x.prox }
 
 (** val set_cnull : aux -> (nat -> nat option) -> aux **)
 
@@ -1313,7 +1462,26 @@ let set_cnull x v =
   { tm = x.tm; cmap = x.cmap; nco = x.nco; oflag = x.oflag; oco = x.oco;
     preflag = x.preflag; selthr = x.selthr; selcur = x.selcur; selpre =
     x.selpre; fds = x.fds; dgr = x.dgr; amap = x.amap; cpend = x.cpend;
-    ctgt = x.ctgt; precan = x.precan; cnull = v; seen = x.seen }
+    ctgt = x.ctgt; precan = x.precan; cnull = v; seen = x.seen; dang =
+    x.dang; tsent = x.tsent; prox = x.prox }
+
+(** val set_dang : aux -> nat list -> aux **)
+
+let set_dang x v =
+  { tm = x.tm; cmap = x.cmap; nco = x.nco; oflag = x.oflag; oco = x.oco;
+    preflag = x.preflag; selthr = x.selthr; selcur = x.selcur; selpre =
+    x.selpre; fds = x.fds; dgr = x.dgr; amap = x.amap; cpend = x.cpend;
+    ctgt = x.ctgt; precan = x.precan; cnull = x.cnull; seen = x.seen; dang =
+    v; tsent = x.tsent; prox = x.prox }
+
+(** val set_thr : aux -> nat list -> nat list -> aux **)
+
+let set_thr x ts pr =
+  { tm = x.tm; cmap = x.cmap; nco = x.nco; oflag = x.oflag; oco = x.oco;
+    preflag = x.preflag; selthr = x.selthr; selcur = x.selcur; selpre =
+    x.selpre; fds = x.fds; dgr = x.dgr; amap = x.amap; cpend = x.cpend;
+    ctgt = x.ctgt; precan = x.precan; cnull = x.cnull; seen = x.seen; dang =
+    x.dang; tsent = ts; prox = pr }
 
 (** val set_can :
     aux -> (nat -> nat option) -> (nat -> nat option) -> (nat -> nat option)
@@ -1323,7 +1491,8 @@ let set_can x am cp ct pc0 =
   { tm = x.tm; cmap = x.cmap; nco = x.nco; oflag = x.oflag; oco = x.oco;
     preflag = x.preflag; selthr = x.selthr; selcur = x.selcur; selpre =
     x.selpre; fds = x.fds; dgr = x.dgr; amap = am; cpend = cp; ctgt = ct;
-    precan = pc0; cnull = x.cnull; seen = x.seen }
+    precan = pc0; cnull = x.cnull; seen = x.seen; dang = x.dang; tsent =
+    x.tsent; prox = x.prox }
 
 (** val pcn : pc -> nat **)
 
@@ -1370,10 +1539,16 @@ let kind_eqb a0 b =
   match a0 with
   | Rd -> (match b with
            | Rd -> true
-           | Wr -> false)
+           | _ -> false)
   | Wr -> (match b with
-           | Rd -> false
-           | Wr -> true)
+           | Wr -> true
+           | _ -> false)
+  | Ac -> (match b with
+           | Ac -> true
+           | _ -> false)
+  | Co -> (match b with
+           | Co -> true
+           | _ -> false)
 
 (** val zassoc : (z * nat) list -> z -> nat option **)
 
@@ -1424,6 +1599,13 @@ let bindo dead m o f =
     else if dead f' then Some ((o, f) :: m) else None
   | None -> Some ((o, f) :: m)
 
+(** val unbound : (nat -> bool) -> (z * nat) list -> z -> bool **)
+
+let unbound dead m o =
+  match zassoc m o with
+  | Some g -> dead g
+  | None -> true
+
 (** val bindthr :
     (nat -> nat option) -> nat -> nat -> (nat -> nat option) option **)
 
@@ -1465,6 +1647,7 @@ let chk b p0 =
 let cur x t0 =
   match x.tm t0 with
   | MRun a0 -> a0
+  | MRunP a0 -> a0
   | _ -> mul (S (S O)) t0
 
 (** val flush : st -> aux -> nat -> action list **)
@@ -1520,6 +1703,63 @@ let rec pick_timer m f n best =
       | _ -> best
     in
     pick_timer m f n' best'
+
+(** val undang : st -> aux -> nat -> action list **)
+
+let undang m x f =
+  if nmem x.dang f
+  then (match m.sel f with
+        | SEv _ ->
+          (match m.co f with
+           | Some _ -> []
+           | None -> (SelTake f) :: [])
+        | _ -> [])
+  else []
+
+(** val undang_x : st -> aux -> nat -> aux **)
+
+let undang_x m x f =
+  if nmem x.dang f
+  then (match m.sel f with
+        | SEv _ ->
+          (match m.co f with
+           | Some _ -> x
+           | None -> set_dang x (filter (fun g -> negb (Nat.eqb g f)) x.dang))
+        | _ -> x)
+  else x
+
+(** val deliver : st -> nat -> action list **)
+
+let deliver m c =
+  if (m.kn c).kdeliv
+  then []
+  else app (match (m.kn c).kst with
+            | CProg -> (Establish c) :: []
+            | _ -> []) ((Deliver c) :: [])
+
+(** val eINPROGRESS_ : z **)
+
+let eINPROGRESS_ =
+  Z.add (Zpos (XO (XO (XO (XO (XO (XO (XO (XO (XO (XO (XO (XO (XO (XO (XO (XO
+    (XO (XO (XO (XO (XO (XO (XO (XO (XO (XO (XO (XO (XO (XO (XO (XO
+    XH))))))))))))))))))))))))))))))))) (Zpos (XI (XI (XO (XO (XI (XI
+    XH)))))))
+
+(** val eALREADY_ : z **)
+
+let eALREADY_ =
+  Z.add (Zpos (XO (XO (XO (XO (XO (XO (XO (XO (XO (XO (XO (XO (XO (XO (XO (XO
+    (XO (XO (XO (XO (XO (XO (XO (XO (XO (XO (XO (XO (XO (XO (XO (XO
+    XH))))))))))))))))))))))))))))))))) (Zpos (XO (XI (XO (XO (XI (XI
+    XH)))))))
+
+(** val eISCONN_ : z **)
+
+let eISCONN_ =
+  Z.add (Zpos (XO (XO (XO (XO (XO (XO (XO (XO (XO (XO (XO (XO (XO (XO (XO (XO
+    (XO (XO (XO (XO (XO (XO (XO (XO (XO (XO (XO (XO (XO (XO (XO (XO
+    XH))))))))))))))))))))))))))))))))) (Zpos (XO (XI (XO (XI (XO (XI
+    XH)))))))
 
 (** val eAGAIN_ : z **)
 
@@ -1649,6 +1889,21 @@ let mkplan calm s e =
                                     | _ -> None)
                                  | XH ->
                                    (match x.tm t0 with
+                                    | MNone ->
+                                      if at_ PYield
+                                      then chk
+                                             (eqb (Z.eqb v (Zpos XH)) r.acanc)
+                                             (acts x ((Step (a0, O)) :: []))
+                                      else obs x (outside p0)
+                                    | MRun c ->
+                                      if at_ PYield
+                                      then chk
+                                             (eqb (Z.eqb v (Zpos XH)) r.acanc)
+                                             (acts x ((Step (a0, O)) :: []))
+                                      else obs
+                                             (set_tm x
+                                               (upd x.tm t0 (MRunP c)))
+                                             (outside p0)
                                     | MKer k ->
                                       (match (m.sb k).spc_ with
                                        | SCan ->
@@ -1658,12 +1913,13 @@ let mkplan calm s e =
                                            (acts x ((Sub (k, false)) :: []))
                                        | _ -> None)
                                     | MKerX -> ok x
-                                    | _ ->
+                                    | MRunP _ ->
                                       if at_ PYield
                                       then chk
                                              (eqb (Z.eqb v (Zpos XH)) r.acanc)
                                              (acts x ((Step (a0, O)) :: []))
-                                      else obs x (outside p0)))
+                                      else obs x (outside p0)
+                                    | _ -> ok (set_tm x (upd x.tm t0 MProxyP))))
                               | _ -> None)
                            | XH ->
                              let f' =
@@ -1751,15 +2007,246 @@ let mkplan calm s e =
                                 (match p4 with
                                  | XI p5 ->
                                    (match p5 with
+                                    | XI p6 ->
+                                      (match p6 with
+                                       | XH ->
+                                         acts x
+                                           (if (||) (m.closed f')
+                                                 (is_some (m.busy f'))
+                                            then []
+                                            else (Close f') :: [])
+                                       | _ -> None)
+                                    | XO p6 ->
+                                      (match p6 with
+                                       | XH ->
+                                         if (&&)
+                                              ((&&)
+                                                ((||) (at_ PTry) (at_ LSys))
+                                                (Nat.eqb f f'))
+                                              (kind_eqb r.akind Ac)
+                                         then if Z.eqb v eAGAIN_
+                                              then actsp x ((Step (a0,
+                                                     O)) :: []) (fun m' ->
+                                                     (||)
+                                                       (pc_eqb (m'.a a0).apc
+                                                         PYield)
+                                                       (pc_eqb (m'.a a0).apc
+                                                         LChk))
+                                              else if is_err v
+                                                   then None
+                                                   else let c = Z.to_nat v in
+                                                        chk
+                                                          ((||)
+                                                            (Nat.eqb
+                                                              (m.kn c).ktgt
+                                                              f')
+                                                            (negb
+                                                              (m.kn c).kdeliv))
+                                                          (actsp x
+                                                            (app
+                                                              (deliver m c)
+                                                              ((Step (a0,
+                                                              O)) :: []))
+                                                            (fun m' ->
+                                                            match (m'.a a0).alast with
+                                                            | Some r0 ->
+                                                              (match r0 with
+                                                               | RAcc c' ->
+                                                                 (&&)
+                                                                   (Nat.eqb c
+                                                                    c')
+                                                                   (outside
+                                                                    (m'.a a0).apc)
+                                                               | _ -> false)
+                                                            | None -> false))
+                                         else None
+                                       | _ -> None)
                                     | XH ->
                                       acts x
                                         (if (m.p f').wshut
                                          then []
-                                         else (Shutdown f') :: [])
-                                    | _ -> None)
+                                         else (Shutdown f') :: []))
                                  | XO p5 ->
                                    (match p5 with
-                                    | XI _ -> None
+                                    | XI p6 ->
+                                      (match p6 with
+                                       | XH ->
+                                         if (&&)
+                                              ((&&)
+                                                ((||) (at_ PTry) (at_ LSys))
+                                                (Nat.eqb f f'))
+                                              (kind_eqb r.akind Co)
+                                         then let conn = fun m' ->
+                                                match (m'.a a0).alast with
+                                                | Some r0 ->
+                                                  (match r0 with
+                                                   | RConn ->
+                                                     outside (m'.a a0).apc
+                                                   | _ -> false)
+                                                | None -> false
+                                              in
+                                              let again = fun m' ->
+                                                (&&)
+                                                  ((||)
+                                                    (pc_eqb (m'.a a0).apc
+                                                      PYield)
+                                                    (pc_eqb (m'.a a0).apc
+                                                      LChk))
+                                                  (match (m'.kn f').kst with
+                                                   | CProg -> true
+                                                   | _ -> false)
+                                              in
+                                              (match (m.kn f').kst with
+                                               | CNone ->
+                                                 if Z.eqb v Z0
+                                                 then actsp x ((Step (a0, (S
+                                                        O))) :: []) conn
+                                                 else if Z.eqb v eINPROGRESS_
+                                                      then actsp x ((Step
+                                                             (a0, O)) :: [])
+                                                             again
+                                                      else if (&&)
+                                                                ((&&)
+                                                                  (is_err v)
+                                                                  (negb
+                                                                    (Z.eqb v
+                                                                    eALREADY_)))
+                                                                (negb
+                                                                  (Z.eqb v
+                                                                    eISCONN_))
+                                                           then let e0 =
+                                                                  Z.to_nat
+                                                                    (Z.sub v
+                                                                    (Zpos (XO
+                                                                    (XO (XO
+                                                                    (XO (XO
+                                                                    (XO (XO
+                                                                    (XO (XO
+                                                                    (XO (XO
+                                                                    (XO (XO
+                                                                    (XO (XO
+                                                                    (XO (XO
+                                                                    (XO (XO
+                                                                    (XO (XO
+                                                                    (XO (XO
+                                                                    (XO (XO
+                                                                    (XO (XO
+                                                                    (XO (XO
+                                                                    (XO (XO
+                                                                    (XO
+                                                                    XH))))))))))))))))))))))))))))))))))
+                                                                in
+                                                                actsp x
+                                                                  ((Step (a0,
+                                                                  (S (S
+                                                                  e0)))) :: [])
+                                                                  (fun m' ->
+                                                                  match 
+                                                                  (m'.a a0).alast with
+                                                                  | Some r0 ->
+                                                                    (match r0 with
+                                                                    | RErr e' ->
+                                                                    (&&)
+                                                                    (Nat.eqb
+                                                                    e0 e')
+                                                                    (outside
+                                                                    (m'.a a0).apc)
+                                                                    | _ ->
+                                                                    false)
+                                                                  | None ->
+                                                                    false)
+                                                           else None
+                                               | CProg ->
+                                                 if Z.eqb v eALREADY_
+                                                 then actsp x ((Step (a0,
+                                                        O)) :: []) again
+                                                 else if (||) (Z.eqb v Z0)
+                                                           (Z.eqb v eISCONN_)
+                                                      then actsp x
+                                                             ((Establish
+                                                             f') :: ((Step
+                                                             (a0, O)) :: []))
+                                                             conn
+                                                      else if (&&) (is_err v)
+                                                                (negb
+                                                                  (Z.eqb v
+                                                                    eINPROGRESS_))
+                                                           then let e0 =
+                                                                  Z.to_nat
+                                                                    (Z.sub v
+                                                                    (Zpos (XO
+                                                                    (XO (XO
+                                                                    (XO (XO
+                                                                    (XO (XO
+                                                                    (XO (XO
+                                                                    (XO (XO
+                                                                    (XO (XO
+                                                                    (XO (XO
+                                                                    (XO (XO
+                                                                    (XO (XO
+                                                                    (XO (XO
+                                                                    (XO (XO
+                                                                    (XO (XO
+                                                                    (XO (XO
+                                                                    (XO (XO
+                                                                    (XO (XO
+                                                                    (XO
+                                                                    XH))))))))))))))))))))))))))))))))))
+                                                                in
+                                                                actsp x
+                                                                  ((Refuse
+                                                                  (f',
+                                                                  e0)) :: ((Step
+                                                                  (a0,
+                                                                  O)) :: []))
+                                                                  (fun m' ->
+                                                                  match 
+                                                                  (m'.a a0).alast with
+                                                                  | Some r0 ->
+                                                                    (match r0 with
+                                                                    | RErr e' ->
+                                                                    (&&)
+                                                                    (Nat.eqb
+                                                                    e0 e')
+                                                                    (outside
+                                                                    (m'.a a0).apc)
+                                                                    | _ ->
+                                                                    false)
+                                                                  | None ->
+                                                                    false)
+                                                           else None
+                                               | CRef e0 ->
+                                                 if Z.eqb v
+                                                      (Z.add (Zpos (XO (XO
+                                                        (XO (XO (XO (XO (XO
+                                                        (XO (XO (XO (XO (XO
+                                                        (XO (XO (XO (XO (XO
+                                                        (XO (XO (XO (XO (XO
+                                                        (XO (XO (XO (XO (XO
+                                                        (XO (XO (XO (XO (XO
+                                                        XH)))))))))))))))))))))))))))))))))
+                                                        (Z.of_nat e0))
+                                                 then actsp x ((Step (a0,
+                                                        O)) :: []) (fun m' ->
+                                                        match (m'.a a0).alast with
+                                                        | Some r0 ->
+                                                          (match r0 with
+                                                           | RErr e' ->
+                                                             (&&)
+                                                               (Nat.eqb e0 e')
+                                                               (outside
+                                                                 (m'.a a0).apc)
+                                                           | _ -> false)
+                                                        | None -> false)
+                                                 else None
+                                               | _ ->
+                                                 if (||) (Z.eqb v Z0)
+                                                      (Z.eqb v eISCONN_)
+                                                 then actsp x ((Step (a0,
+                                                        O)) :: []) conn
+                                                 else None)
+                                         else None
+                                       | _ -> None)
                                     | XO p6 ->
                                       (match p6 with
                                        | XH ->
@@ -1845,17 +2332,13 @@ let mkplan calm s e =
                                 (match p5 with
                                  | XH ->
                                    (match x.tm t0 with
-                                    | MNone ->
+                                    | MKer _ -> ok x
+                                    | MKerX -> ok x
+                                    | _ ->
                                       if at_ RClr
                                       then chk (eqb (znz v) (is_some r.acio))
                                              (acts x ((Step (a0, O)) :: []))
-                                      else obs x (outside p0)
-                                    | MRun _ ->
-                                      if at_ RClr
-                                      then chk (eqb (znz v) (is_some r.acio))
-                                             (acts x ((Step (a0, O)) :: []))
-                                      else obs x (outside p0)
-                                    | _ -> ok x)
+                                      else obs x (outside p0))
                                  | _ -> None)
                               | XO p5 ->
                                 (match p5 with
@@ -1890,22 +2373,116 @@ let mkplan calm s e =
                                              | None -> None)
                                           | _ -> None)
                                        | None ->
-                                         ok
-                                           (set_sel x x.selthr x.selcur
-                                             (upd x.selpre t0 None)))
+                                         (match x.selpre t0 with
+                                          | Some w ->
+                                            (match zassoc x.oco obj with
+                                             | Some f' ->
+                                               if m.closed f'
+                                               then ok
+                                                      (set_sel x x.selthr
+                                                        x.selcur
+                                                        (upd x.selpre t0 None))
+                                               else (match bindo m.closed
+                                                             x.oflag w f' with
+                                                     | Some ofl ->
+                                                       (match bindthr
+                                                                x.selthr f' t0 with
+                                                        | Some sth ->
+                                                          (match m.sel f' with
+                                                           | SIdle ->
+                                                             chk
+                                                               (eqb (znz v)
+                                                                 (is_some
+                                                                   (m.co f')))
+                                                               (acts
+                                                                 (set_sel
+                                                                   (set_oflag
+                                                                    x ofl
+                                                                    (filter
+                                                                    (fun o ->
+                                                                    negb
+                                                                    (Z.eqb o
+                                                                    w))
+                                                                    x.preflag))
+                                                                   sth
+                                                                   (upd
+                                                                    x.selcur
+                                                                    t0 (Some
+                                                                    f'))
+                                                                   (upd
+                                                                    x.selpre
+                                                                    t0 None))
+                                                                 (app
+                                                                   (flush m x
+                                                                    t0)
+                                                                   (app
+                                                                    (if 
+                                                                    m.pend f'
+                                                                    then []
+                                                                    else 
+                                                                    (Spurious
+                                                                    f') :: [])
+                                                                    ((SelEvent
+                                                                    (f',
+                                                                    f')) :: ((SelTake
+                                                                    f') :: [])))))
+                                                           | _ -> None)
+                                                        | None -> None)
+                                                     | None -> None)
+                                             | None ->
+                                               ok
+                                                 (set_sel x x.selthr x.selcur
+                                                   (upd x.selpre t0 None)))
+                                          | None ->
+                                            ok
+                                              (set_sel x x.selthr x.selcur
+                                                (upd x.selpre t0 None))))
                                     | _ -> None)
                                  | XH ->
                                    (match x.tm t0 with
                                     | MKer k ->
                                       (match (m.sb k).spc_ with
                                        | SFast ->
+                                         let f' = (m.sb k).sfd in
+                                         let dg =
+                                           (&&) (nmem x.dang f')
+                                             (match m.sel f' with
+                                              | SEv _ -> true
+                                              | _ -> false)
+                                         in
                                          chk
-                                           (eqb (znz v)
-                                             (is_some (m.co (m.sb k).sfd)))
-                                           (acts x ((Sub (k, false)) :: []))
+                                           (eqb (znz v) (is_some (m.co f')))
+                                           (acts
+                                             (if dg
+                                              then set_dang x
+                                                     (filter (fun g ->
+                                                       negb (Nat.eqb g f'))
+                                                       x.dang)
+                                              else x)
+                                             (app ((Sub (k, false)) :: [])
+                                               (if dg
+                                                then (SelTake f') :: []
+                                                else [])))
                                        | _ -> None)
                                     | _ -> None))
-                              | XO _ -> None
+                              | XO p5 ->
+                                (match p5 with
+                                 | XO p6 ->
+                                   (match p6 with
+                                    | XH ->
+                                      (match x.tm t0 with
+                                       | MNone ->
+                                         if at_ RBack
+                                         then chk
+                                                ((&&) (eqb (znz v) r.apara)
+                                                  (negb r.acanc))
+                                                (acts x ((Step (a0,
+                                                  O)) :: ((Step (a0,
+                                                  O)) :: [])))
+                                         else None
+                                       | _ -> None)
+                                    | _ -> None)
+                                 | _ -> None)
                               | XH ->
                                 let k = Z.to_nat obj in
                                 let x' =
@@ -1918,9 +2495,15 @@ let mkplan calm s e =
                                 else ok x')
                            | XH ->
                              let n = Z.to_nat v in
+                             let x0 =
+                               set_fds x x.fds x.dgr
+                                 (if nmem x.seen a0
+                                  then x.seen
+                                  else a0 :: x.seen)
+                             in
                              if Nat.ltb m.now n
-                             then acts x ((Tick (sub n m.now)) :: [])
-                             else obs x (Nat.eqb m.now n))
+                             then acts x0 ((Tick (sub n m.now)) :: [])
+                             else obs x0 (Nat.eqb m.now n))
                         | XH ->
                           let x' = set_tm x (upd x.tm t0 MNone) in
                           (match x.tm t0 with
@@ -1990,80 +2573,332 @@ let mkplan calm s e =
                                     | XH ->
                                       (match zassoc x.oflag obj with
                                        | Some f' ->
-                                         (match bindthr x.selthr f' t0 with
-                                          | Some sth ->
-                                            (match pick_timer m f' m.nextt
-                                                     None with
-                                             | Some e0 ->
-                                               chk (eqb (znz v) (m.flag f'))
-                                                 (acts
-                                                   (set_sel x sth
-                                                     (upd x.selcur t0 (Some
-                                                       f'))
-                                                     (upd x.selpre t0 None))
-                                                   (app (flush m x t0)
-                                                     (app
-                                                       (if Nat.ltb m.now
-                                                             (m.t e0).tdl
-                                                        then (Tick
-                                                               (sub
-                                                                 (m.t e0).tdl
-                                                                 m.now)) :: []
-                                                        else []) ((SelFire
-                                                       (f', e0)) :: ((SelMark
-                                                       f') :: [])))))
-                                             | None ->
-                                               (match x.cnull f' with
-                                                | Some e0 ->
-                                                  (match (m.t e0).tstate with
-                                                   | TArmed ->
-                                                     (match (m.t e0).tev with
-                                                      | Some _ -> None
-                                                      | None ->
-                                                        chk
-                                                          ((&&)
+                                         if m.closed f'
+                                         then (match find (fun f'0 ->
+                                                       (&&)
+                                                         ((&&)
+                                                           (negb
+                                                             (m.closed f'0))
+                                                           (negb
+                                                             (existsb
+                                                               (fun p7 ->
+                                                               Nat.eqb
+                                                                 (snd p7) f'0)
+                                                               x.oflag)))
+                                                         (is_some
+                                                           (pick_timer m f'0
+                                                             m.nextt None)))
+                                                       x.fds with
+                                               | Some f'0 ->
+                                                 (match bindo m.closed
+                                                          x.oflag obj f'0 with
+                                                  | Some ofl ->
+                                                    let p7 = (f'0,
+                                                      (set_oflag x ofl
+                                                        (filter (fun o ->
+                                                          negb (Z.eqb o obj))
+                                                          x.preflag)))
+                                                    in
+                                                    let (f'1, x0) = p7 in
+                                                    (match bindthr x0.selthr
+                                                             f'1 t0 with
+                                                     | Some sth ->
+                                                       (match pick_timer m
+                                                                f'1 m.nextt
+                                                                None with
+                                                        | Some e0 ->
+                                                          chk
                                                             (eqb (znz v)
-                                                              (m.flag f'))
-                                                            (negb calm))
-                                                          (acts
-                                                            (set_cnull
-                                                              (set_sel x sth
-                                                                (upd x.selcur
+                                                              (m.flag f'1))
+                                                            (acts
+                                                              (set_sel x0 sth
+                                                                (upd
+                                                                  x0.selcur
                                                                   t0 (Some
-                                                                  f'))
-                                                                (upd x.selpre
+                                                                  f'1))
+                                                                (upd
+                                                                  x0.selpre
                                                                   t0 None))
-                                                              (upd x.cnull f'
-                                                                None))
-                                                            (app
-                                                              (flush m x t0)
                                                               (app
-                                                                (if Nat.ltb
+                                                                (flush m x0
+                                                                  t0)
+                                                                (app
+                                                                  (if 
+                                                                    Nat.ltb
                                                                     m.now
                                                                     (m.t e0).tdl
-                                                                 then 
-                                                                   (Tick
+                                                                   then 
+                                                                    (Tick
                                                                     (sub
                                                                     (m.t e0).tdl
                                                                     m.now)) :: []
-                                                                 else [])
-                                                                (app
+                                                                   else [])
                                                                   ((SelFire
-                                                                  (f',
-                                                                  e0)) :: ((Spurious
-                                                                  f') :: ((SelEvent
-                                                                  (f',
-                                                                  f')) :: [])))
-                                                                  (if 
-                                                                    m.pend f'
-                                                                   then 
+                                                                  (f'1,
+                                                                  e0)) :: ((SelMark
+                                                                  f'1) :: [])))))
+                                                        | None ->
+                                                          (match x0.cnull f'1 with
+                                                           | Some e0 ->
+                                                             (match (m.t e0).tstate with
+                                                              | TArmed ->
+                                                                (match 
+                                                                 (m.t e0).tev with
+                                                                 | Some _ ->
+                                                                   None
+                                                                 | None ->
+                                                                   chk
+                                                                    ((&&)
+                                                                    (eqb
+                                                                    (znz v)
+                                                                    (m.flag
+                                                                    f'1))
+                                                                    (negb
+                                                                    calm))
+                                                                    (acts
+                                                                    (set_cnull
+                                                                    (set_sel
+                                                                    x0 sth
+                                                                    (upd
+                                                                    x0.selcur
+                                                                    t0 (Some
+                                                                    f'1))
+                                                                    (upd
+                                                                    x0.selpre
+                                                                    t0 None))
+                                                                    (upd
+                                                                    x0.cnull
+                                                                    f'1 None))
+                                                                    (app
+                                                                    (flush m
+                                                                    x0 t0)
+                                                                    (app
+                                                                    (if 
+                                                                    Nat.ltb
+                                                                    m.now
+                                                                    (m.t e0).tdl
+                                                                    then 
+                                                                    (Tick
+                                                                    (sub
+                                                                    (m.t e0).tdl
+                                                                    m.now)) :: []
+                                                                    else [])
+                                                                    (app
+                                                                    ((SelFire
+                                                                    (f'1,
+                                                                    e0)) :: ((Spurious
+                                                                    f'1) :: ((SelEvent
+                                                                    (f'1,
+                                                                    f'1)) :: [])))
+                                                                    (if 
+                                                                    m.pend f'1
+                                                                    then 
                                                                     (Spurious
-                                                                    f') :: []
-                                                                   else []))))))
-                                                   | _ -> None)
-                                                | None -> None))
-                                          | None -> None)
-                                       | None -> None)
+                                                                    f'1) :: []
+                                                                    else []))))))
+                                                              | _ -> None)
+                                                           | None -> None))
+                                                     | None -> None)
+                                                  | None -> None)
+                                               | None -> None)
+                                         else let p7 = (f', x) in
+                                              let (f'0, x0) = p7 in
+                                              (match bindthr x0.selthr f'0 t0 with
+                                               | Some sth ->
+                                                 (match pick_timer m f'0
+                                                          m.nextt None with
+                                                  | Some e0 ->
+                                                    chk
+                                                      (eqb (znz v)
+                                                        (m.flag f'0))
+                                                      (acts
+                                                        (set_sel x0 sth
+                                                          (upd x0.selcur t0
+                                                            (Some f'0))
+                                                          (upd x0.selpre t0
+                                                            None))
+                                                        (app (flush m x0 t0)
+                                                          (app
+                                                            (if Nat.ltb m.now
+                                                                  (m.t e0).tdl
+                                                             then (Tick
+                                                                    (sub
+                                                                    (m.t e0).tdl
+                                                                    m.now)) :: []
+                                                             else [])
+                                                            ((SelFire (f'0,
+                                                            e0)) :: ((SelMark
+                                                            f'0) :: [])))))
+                                                  | None ->
+                                                    (match x0.cnull f'0 with
+                                                     | Some e0 ->
+                                                       (match (m.t e0).tstate with
+                                                        | TArmed ->
+                                                          (match (m.t e0).tev with
+                                                           | Some _ -> None
+                                                           | None ->
+                                                             chk
+                                                               ((&&)
+                                                                 (eqb 
+                                                                   (znz v)
+                                                                   (m.flag
+                                                                    f'0))
+                                                                 (negb calm))
+                                                               (acts
+                                                                 (set_cnull
+                                                                   (set_sel
+                                                                    x0 sth
+                                                                    (upd
+                                                                    x0.selcur
+                                                                    t0 (Some
+                                                                    f'0))
+                                                                    (upd
+                                                                    x0.selpre
+                                                                    t0 None))
+                                                                   (upd
+                                                                    x0.cnull
+                                                                    f'0 None))
+                                                                 (app
+                                                                   (flush m
+                                                                    x0 t0)
+                                                                   (app
+                                                                    (if 
+                                                                    Nat.ltb
+                                                                    m.now
+                                                                    (m.t e0).tdl
+                                                                    then 
+                                                                    (Tick
+                                                                    (sub
+                                                                    (m.t e0).tdl
+                                                                    m.now)) :: []
+                                                                    else [])
+                                                                    (app
+                                                                    ((SelFire
+                                                                    (f'0,
+                                                                    e0)) :: ((Spurious
+                                                                    f'0) :: ((SelEvent
+                                                                    (f'0,
+                                                                    f'0)) :: [])))
+                                                                    (if 
+                                                                    m.pend f'0
+                                                                    then 
+                                                                    (Spurious
+                                                                    f'0) :: []
+                                                                    else []))))))
+                                                        | _ -> None)
+                                                     | None -> None))
+                                               | None -> None)
+                                       | None ->
+                                         (match find (fun f' ->
+                                                  (&&)
+                                                    ((&&)
+                                                      (negb (m.closed f'))
+                                                      (negb
+                                                        (existsb (fun p7 ->
+                                                          Nat.eqb (snd p7) f')
+                                                          x.oflag)))
+                                                    (is_some
+                                                      (pick_timer m f'
+                                                        m.nextt None))) x.fds with
+                                          | Some f' ->
+                                            (match bindo m.closed x.oflag obj
+                                                     f' with
+                                             | Some ofl ->
+                                               let p7 = (f',
+                                                 (set_oflag x ofl
+                                                   (filter (fun o ->
+                                                     negb (Z.eqb o obj))
+                                                     x.preflag)))
+                                               in
+                                               let (f'0, x0) = p7 in
+                                               (match bindthr x0.selthr f'0 t0 with
+                                                | Some sth ->
+                                                  (match pick_timer m f'0
+                                                           m.nextt None with
+                                                   | Some e0 ->
+                                                     chk
+                                                       (eqb (znz v)
+                                                         (m.flag f'0))
+                                                       (acts
+                                                         (set_sel x0 sth
+                                                           (upd x0.selcur t0
+                                                             (Some f'0))
+                                                           (upd x0.selpre t0
+                                                             None))
+                                                         (app (flush m x0 t0)
+                                                           (app
+                                                             (if Nat.ltb
+                                                                   m.now
+                                                                   (m.t e0).tdl
+                                                              then (Tick
+                                                                    (sub
+                                                                    (m.t e0).tdl
+                                                                    m.now)) :: []
+                                                              else [])
+                                                             ((SelFire (f'0,
+                                                             e0)) :: ((SelMark
+                                                             f'0) :: [])))))
+                                                   | None ->
+                                                     (match x0.cnull f'0 with
+                                                      | Some e0 ->
+                                                        (match (m.t e0).tstate with
+                                                         | TArmed ->
+                                                           (match (m.t e0).tev with
+                                                            | Some _ -> None
+                                                            | None ->
+                                                              chk
+                                                                ((&&)
+                                                                  (eqb
+                                                                    (znz v)
+                                                                    (m.flag
+                                                                    f'0))
+                                                                  (negb calm))
+                                                                (acts
+                                                                  (set_cnull
+                                                                    (set_sel
+                                                                    x0 sth
+                                                                    (upd
+                                                                    x0.selcur
+                                                                    t0 (Some
+                                                                    f'0))
+                                                                    (upd
+                                                                    x0.selpre
+                                                                    t0 None))
+                                                                    (upd
+                                                                    x0.cnull
+                                                                    f'0 None))
+                                                                  (app
+                                                                    (flush m
+                                                                    x0 t0)
+                                                                    (app
+                                                                    (if 
+                                                                    Nat.ltb
+                                                                    m.now
+                                                                    (m.t e0).tdl
+                                                                    then 
+                                                                    (Tick
+                                                                    (sub
+                                                                    (m.t e0).tdl
+                                                                    m.now)) :: []
+                                                                    else [])
+                                                                    (app
+                                                                    ((SelFire
+                                                                    (f'0,
+                                                                    e0)) :: ((Spurious
+                                                                    f'0) :: ((SelEvent
+                                                                    (f'0,
+                                                                    f'0)) :: [])))
+                                                                    (if 
+                                                                    m.pend f'0
+                                                                    then 
+                                                                    (Spurious
+                                                                    f'0) :: []
+                                                                    else []))))))
+                                                         | _ -> None)
+                                                      | None -> None))
+                                                | None -> None)
+                                             | None -> None)
+                                          | None -> None))
                                     | _ -> None)
                                  | XH ->
                                    (match x.tm t0 with
@@ -2073,7 +2908,23 @@ let mkplan calm s e =
                                          acts x ((Sub (k, false)) :: [])
                                        | _ -> None)
                                     | _ -> None))
-                              | XO _ -> None
+                              | XO p5 ->
+                                (match p5 with
+                                 | XI p6 ->
+                                   (match p6 with
+                                    | XH ->
+                                      (match x.tm t0 with
+                                       | MNone ->
+                                         if at_ PYield
+                                         then chk (negb r.acanc)
+                                                (acts
+                                                  (set_thr x (a0 :: x.tsent)
+                                                    x.prox) ((Step (a0,
+                                                  O)) :: []))
+                                         else ok x
+                                       | _ -> ok x)
+                                    | _ -> None)
+                                 | _ -> None)
                               | XH ->
                                 ok
                                   (set_can x x.amap
@@ -2089,10 +2940,25 @@ let mkplan calm s e =
                                if Z.eqb
                                     (Z.modulo
                                       (Z.div obj (Zpos (XO (XO (XO (XO (XO
-                                        (XO (XO (XO XH)))))))))) (Zpos (XO
-                                      XH))) Z0
-                               then Rd
-                               else Wr
+                                        (XO (XO (XO (XO (XO (XO
+                                        XH))))))))))))) (Zpos (XO XH))) (Zpos
+                                    XH)
+                               then Ac
+                               else if Z.eqb
+                                         (Z.modulo
+                                           (Z.div obj (Zpos (XO (XO (XO (XO
+                                             (XO (XO (XO (XO (XO (XO (XO (XO
+                                             XH)))))))))))))) (Zpos (XO XH)))
+                                         (Zpos XH)
+                                    then Co
+                                    else if Z.eqb
+                                              (Z.modulo
+                                                (Z.div obj (Zpos (XO (XO (XO
+                                                  (XO (XO (XO (XO (XO
+                                                  XH)))))))))) (Zpos (XO XH)))
+                                              Z0
+                                         then Rd
+                                         else Wr
                              in
                              let cn0 =
                                Z.eqb
@@ -2140,11 +3006,13 @@ let mkplan calm s e =
                                match k with
                                | Rd -> []
                                | Wr -> if dg then off :: [] else seq off n
+                               | _ -> []
                              in
                              let n' =
                                match k with
                                | Rd -> if dg then S O else n
-                               | Wr -> O
+                               | Co -> n
+                               | _ -> O
                              in
                              acts
                                (set_fds x
@@ -2162,19 +3030,14 @@ let mkplan calm s e =
                                 (match p5 with
                                  | XH ->
                                    (match x.tm t0 with
-                                    | MNone ->
+                                    | MKer _ -> ok x
+                                    | MKerX -> ok x
+                                    | _ ->
                                       if at_ RBack
                                       then chk
                                              (eqb (Z.eqb v (Zpos XH)) r.acanc)
                                              (acts x ((Step (a0, O)) :: []))
-                                      else obs x (outside p0)
-                                    | MRun _ ->
-                                      if at_ RBack
-                                      then chk
-                                             (eqb (Z.eqb v (Zpos XH)) r.acanc)
-                                             (acts x ((Step (a0, O)) :: []))
-                                      else obs x (outside p0)
-                                    | _ -> ok x)
+                                      else obs x (outside p0))
                                  | _ -> None)
                               | XO p5 ->
                                 (match p5 with
@@ -2185,10 +3048,8 @@ let mkplan calm s e =
                                            let pre =
                                              (&&)
                                                ((&&) (zmem x.preflag obj)
-                                                 (negb
-                                                   (is_some
-                                                     (zassoc x.oflag obj))))
-                                               (znz v)
+                                                 (unbound m.closed x.oflag
+                                                   obj)) (znz v)
                                            in
                                            let x1 =
                                              set_oflag x ofl
@@ -2244,7 +3105,11 @@ let mkplan calm s e =
                                          | None -> None)
                                    else None
                                  | _ -> None)
-                              | XH -> None)
+                              | XH ->
+                                (match x.tm t0 with
+                                 | MRun c ->
+                                   ok (set_tm x (upd x.tm t0 (MRunP c)))
+                                 | _ -> ok x))
                            | XO p4 ->
                              (match p4 with
                               | XI p5 ->
@@ -2255,21 +3120,36 @@ let mkplan calm s e =
                                     | XH ->
                                       (match zassoc x.oflag obj with
                                        | Some f' ->
-                                         (match bindthr x.selthr f' t0 with
-                                          | Some sth ->
-                                            chk (eqb (znz v) (m.flag f'))
-                                              (acts
-                                                (set_sel x sth
-                                                  (upd x.selcur t0 (Some f'))
-                                                  (upd x.selpre t0 None))
-                                                (app (flush m x t0)
-                                                  (app
-                                                    (if m.pend f'
-                                                     then []
-                                                     else (Spurious f') :: [])
-                                                    ((SelEvent (f',
-                                                    f')) :: []))))
-                                          | None -> None)
+                                         if m.closed f'
+                                         then ok
+                                                (set_sel
+                                                  (set_oflag x x.oflag
+                                                    (if zmem x.preflag obj
+                                                     then x.preflag
+                                                     else obj :: x.preflag))
+                                                  x.selthr
+                                                  (upd x.selcur t0 None)
+                                                  (upd x.selpre t0 (Some obj)))
+                                         else (match bindthr x.selthr f' t0 with
+                                               | Some sth ->
+                                                 chk
+                                                   (eqb (znz v) (m.flag f'))
+                                                   (acts
+                                                     (set_sel
+                                                       (undang_x m x f') sth
+                                                       (upd x.selcur t0 (Some
+                                                         f'))
+                                                       (upd x.selpre t0 None))
+                                                     (app (undang m x f')
+                                                       (app (flush m x t0)
+                                                         (app
+                                                           (if m.pend f'
+                                                            then []
+                                                            else (Spurious
+                                                                   f') :: [])
+                                                           ((SelEvent (f',
+                                                           f')) :: [])))))
+                                               | None -> None)
                                        | None ->
                                          ok
                                            (set_sel
@@ -2285,9 +3165,70 @@ let mkplan calm s e =
                                     | MKer k ->
                                       (match (m.sb k).spc_ with
                                        | SChk ->
-                                         chk
-                                           (eqb (znz v) (m.flag (m.sb k).sfd))
-                                           (acts x ((Sub (k, false)) :: []))
+                                         let f' = (m.sb k).sfd in
+                                         (match bindo m.closed x.oflag obj f' with
+                                          | Some ofl ->
+                                            let pre =
+                                              (&&)
+                                                ((&&)
+                                                  ((&&) (zmem x.preflag obj)
+                                                    (unbound m.closed x.oflag
+                                                      obj)) (znz v))
+                                                (match m.sel f' with
+                                                 | SIdle -> true
+                                                 | _ -> false)
+                                            in
+                                            let x1 =
+                                              set_oflag x ofl
+                                                (if pre
+                                                 then filter (fun o ->
+                                                        negb (Z.eqb o obj))
+                                                        x.preflag
+                                                 else x.preflag)
+                                            in
+                                            let late =
+                                              find (fun t' ->
+                                                match x.selpre t' with
+                                                | Some o -> Z.eqb o obj
+                                                | None -> false)
+                                                (seq O (S (S (S (S (S (S (S
+                                                  (S (S (S (S (S (S (S (S (S
+                                                  (S (S (S (S (S (S (S (S (S
+                                                  (S (S (S (S (S (S (S (S (S
+                                                  (S (S (S (S (S (S (S (S (S
+                                                  (S (S (S (S (S (S (S (S (S
+                                                  (S (S (S (S (S (S (S (S (S
+                                                  (S (S (S
+                                                  O)))))))))))))))))))))))))))))))))))))))))))))))))))))))))))))))))
+                                            in
+                                            let x' =
+                                              if pre
+                                              then (match late with
+                                                    | Some t' ->
+                                                      set_sel x1
+                                                        (upd x1.selthr f'
+                                                          (Some t'))
+                                                        (upd x1.selcur t'
+                                                          (Some f'))
+                                                        (upd x1.selpre t'
+                                                          None)
+                                                    | None ->
+                                                      set_dang x1
+                                                        (f' :: x1.dang))
+                                              else x1
+                                            in
+                                            chk
+                                              (eqb (znz v)
+                                                ((||) (m.flag f') pre))
+                                              (acts x'
+                                                (app
+                                                  (if pre
+                                                   then (Spurious
+                                                          f') :: ((SelEvent
+                                                          (f', f')) :: [])
+                                                   else []) ((Sub (k,
+                                                  false)) :: [])))
+                                          | None -> None)
                                        | _ -> None)
                                     | _ -> None))
                               | XO p5 ->
@@ -2376,6 +3317,22 @@ let mkplan calm s e =
                                                            then S O
                                                            else n)
                                                       | _ -> false)
+                                                   | None -> false)
+                                              | Ac ->
+                                                obs x
+                                                  (match r.alast with
+                                                   | Some r0 ->
+                                                     (match r0 with
+                                                      | RAcc c -> Nat.eqb c n
+                                                      | _ -> false)
+                                                   | None -> false)
+                                              | Co ->
+                                                obs x
+                                                  (match r.alast with
+                                                   | Some r0 ->
+                                                     (match r0 with
+                                                      | RConn -> true
+                                                      | _ -> false)
                                                    | None -> false))
                                         else None
                                       | Zpos p5 ->
@@ -2401,6 +3358,7 @@ let mkplan calm s e =
                                                   (match r0 with
                                                    | REof -> true
                                                    | RPipe -> true
+                                                   | RErr _ -> true
                                                    | _ -> false)
                                                 | None -> false)))
                                       | Zneg _ ->
@@ -2411,31 +3369,335 @@ let mkplan calm s e =
                                                (match r0 with
                                                 | REof -> true
                                                 | RPipe -> true
+                                                | RErr _ -> true
                                                 | _ -> false)
                                              | None -> false))))
                            | XH ->
                              obs (set_tm x (upd x.tm t0 MNone)) (outside p0))
                         | XH ->
                           (match x.tm t0 with
+                           | MNone ->
+                             (match x.tm t0 with
+                              | MProxyP -> ok (set_tm x (upd x.tm t0 MKerX))
+                              | MRunP c ->
+                                obs (set_tm x (upd x.tm t0 MKerX))
+                                  ((||) (outside (m.a c).apc) (nmem x.prox c))
+                              | _ -> None)
                            | MRun c ->
-                             let md =
-                               match (m.a c).apc with
-                               | Susp ->
-                                 (match (m.a c).ahome with
-                                  | HSub k -> MKer k
-                                  | _ -> MKerX)
-                               | _ -> MKerX
+                             let cand =
+                               filter (fun a1 ->
+                                 (&&) (pc_eqb (m.a a1).apc Susp)
+                                   (match (m.a a1).ahome with
+                                    | HSub _ -> true
+                                    | _ -> false)) x.tsent
                              in
-                             (match md with
-                              | MKer k ->
-                                acts (set_tm x (upd x.tm t0 md))
-                                  (match (m.sb k).spc_ with
-                                   | SArm -> (Sub (k, false)) :: []
-                                   | _ -> [])
-                              | _ ->
-                                obs (set_tm x (upd x.tm t0 md))
-                                  (outside (m.a c).apc))
-                           | _ -> None))
+                             if (&&)
+                                  ((&&) (negb (nmem x.seen c))
+                                    (pc_eqb (m.a c).apc Idle))
+                                  (negb (nmem x.prox c))
+                             then (match cand with
+                                   | [] ->
+                                     let x0 =
+                                       set_thr x
+                                         (filter (fun a1 ->
+                                           negb (Nat.eqb a1 c)) x.tsent)
+                                         x.prox
+                                     in
+                                     let md =
+                                       match (m.a c).apc with
+                                       | Susp ->
+                                         (match (m.a c).ahome with
+                                          | HSub k -> MKer k
+                                          | _ -> MKerX)
+                                       | _ -> MKerX
+                                     in
+                                     (match md with
+                                      | MKer k ->
+                                        acts (set_tm x0 (upd x0.tm t0 md))
+                                          (match (m.sb k).spc_ with
+                                           | SArm -> (Sub (k, false)) :: []
+                                           | _ -> [])
+                                      | _ ->
+                                        obs (set_tm x0 (upd x0.tm t0 md))
+                                          ((||) (outside (m.a c).apc)
+                                            (nmem x0.prox c)))
+                                   | a1 :: l3 ->
+                                     (match l3 with
+                                      | [] ->
+                                        (match find (fun p3 ->
+                                                 Nat.eqb (snd p3) c) x.cmap with
+                                         | Some p3 ->
+                                           let (o, _) = p3 in
+                                           let x0 =
+                                             set_thr
+                                               (set_cmap x ((o,
+                                                 a1) :: x.cmap) x.nco)
+                                               x.tsent (a1 :: x.prox)
+                                           in
+                                           let x1 =
+                                             set_thr x0
+                                               (filter (fun a2 ->
+                                                 negb (Nat.eqb a2 a1))
+                                                 x0.tsent) x0.prox
+                                           in
+                                           let md =
+                                             match (m.a a1).apc with
+                                             | Susp ->
+                                               (match (m.a a1).ahome with
+                                                | HSub k -> MKer k
+                                                | _ -> MKerX)
+                                             | _ -> MKerX
+                                           in
+                                           (match md with
+                                            | MKer k ->
+                                              acts
+                                                (set_tm x1 (upd x1.tm t0 md))
+                                                (match (m.sb k).spc_ with
+                                                 | SArm ->
+                                                   (Sub (k, false)) :: []
+                                                 | _ -> [])
+                                            | _ ->
+                                              obs
+                                                (set_tm x1 (upd x1.tm t0 md))
+                                                ((||) (outside (m.a a1).apc)
+                                                  (nmem x1.prox a1)))
+                                         | None ->
+                                           let x0 =
+                                             set_thr x
+                                               (filter (fun a2 ->
+                                                 negb (Nat.eqb a2 c)) x.tsent)
+                                               x.prox
+                                           in
+                                           let md =
+                                             match (m.a c).apc with
+                                             | Susp ->
+                                               (match (m.a c).ahome with
+                                                | HSub k -> MKer k
+                                                | _ -> MKerX)
+                                             | _ -> MKerX
+                                           in
+                                           (match md with
+                                            | MKer k ->
+                                              acts
+                                                (set_tm x0 (upd x0.tm t0 md))
+                                                (match (m.sb k).spc_ with
+                                                 | SArm ->
+                                                   (Sub (k, false)) :: []
+                                                 | _ -> [])
+                                            | _ ->
+                                              obs
+                                                (set_tm x0 (upd x0.tm t0 md))
+                                                ((||) (outside (m.a c).apc)
+                                                  (nmem x0.prox c))))
+                                      | _ :: _ ->
+                                        let x0 =
+                                          set_thr x
+                                            (filter (fun a2 ->
+                                              negb (Nat.eqb a2 c)) x.tsent)
+                                            x.prox
+                                        in
+                                        let md =
+                                          match (m.a c).apc with
+                                          | Susp ->
+                                            (match (m.a c).ahome with
+                                             | HSub k -> MKer k
+                                             | _ -> MKerX)
+                                          | _ -> MKerX
+                                        in
+                                        (match md with
+                                         | MKer k ->
+                                           acts (set_tm x0 (upd x0.tm t0 md))
+                                             (match (m.sb k).spc_ with
+                                              | SArm -> (Sub (k, false)) :: []
+                                              | _ -> [])
+                                         | _ ->
+                                           obs (set_tm x0 (upd x0.tm t0 md))
+                                             ((||) (outside (m.a c).apc)
+                                               (nmem x0.prox c)))))
+                             else let x0 =
+                                    set_thr x
+                                      (filter (fun a1 -> negb (Nat.eqb a1 c))
+                                        x.tsent) x.prox
+                                  in
+                                  let md =
+                                    match (m.a c).apc with
+                                    | Susp ->
+                                      (match (m.a c).ahome with
+                                       | HSub k -> MKer k
+                                       | _ -> MKerX)
+                                    | _ -> MKerX
+                                  in
+                                  (match md with
+                                   | MKer k ->
+                                     acts (set_tm x0 (upd x0.tm t0 md))
+                                       (match (m.sb k).spc_ with
+                                        | SArm -> (Sub (k, false)) :: []
+                                        | _ -> [])
+                                   | _ ->
+                                     obs (set_tm x0 (upd x0.tm t0 md))
+                                       ((||) (outside (m.a c).apc)
+                                         (nmem x0.prox c)))
+                           | MProxy c ->
+                             let cand =
+                               filter (fun a1 ->
+                                 (&&) (pc_eqb (m.a a1).apc Susp)
+                                   (match (m.a a1).ahome with
+                                    | HSub _ -> true
+                                    | _ -> false)) x.tsent
+                             in
+                             if (&&)
+                                  ((&&) (negb (nmem x.seen c))
+                                    (pc_eqb (m.a c).apc Idle))
+                                  (negb (nmem x.prox c))
+                             then (match cand with
+                                   | [] ->
+                                     let x0 =
+                                       set_thr x
+                                         (filter (fun a1 ->
+                                           negb (Nat.eqb a1 c)) x.tsent)
+                                         x.prox
+                                     in
+                                     let md =
+                                       match (m.a c).apc with
+                                       | Susp ->
+                                         (match (m.a c).ahome with
+                                          | HSub k -> MKer k
+                                          | _ -> MKerX)
+                                       | _ -> MKerX
+                                     in
+                                     (match md with
+                                      | MKer k ->
+                                        acts (set_tm x0 (upd x0.tm t0 md))
+                                          (match (m.sb k).spc_ with
+                                           | SArm -> (Sub (k, false)) :: []
+                                           | _ -> [])
+                                      | _ ->
+                                        obs (set_tm x0 (upd x0.tm t0 md))
+                                          ((||) (outside (m.a c).apc)
+                                            (nmem x0.prox c)))
+                                   | a1 :: l3 ->
+                                     (match l3 with
+                                      | [] ->
+                                        (match find (fun p3 ->
+                                                 Nat.eqb (snd p3) c) x.cmap with
+                                         | Some p3 ->
+                                           let (o, _) = p3 in
+                                           let x0 =
+                                             set_thr
+                                               (set_cmap x ((o,
+                                                 a1) :: x.cmap) x.nco)
+                                               x.tsent (a1 :: x.prox)
+                                           in
+                                           let x1 =
+                                             set_thr x0
+                                               (filter (fun a2 ->
+                                                 negb (Nat.eqb a2 a1))
+                                                 x0.tsent) x0.prox
+                                           in
+                                           let md =
+                                             match (m.a a1).apc with
+                                             | Susp ->
+                                               (match (m.a a1).ahome with
+                                                | HSub k -> MKer k
+                                                | _ -> MKerX)
+                                             | _ -> MKerX
+                                           in
+                                           (match md with
+                                            | MKer k ->
+                                              acts
+                                                (set_tm x1 (upd x1.tm t0 md))
+                                                (match (m.sb k).spc_ with
+                                                 | SArm ->
+                                                   (Sub (k, false)) :: []
+                                                 | _ -> [])
+                                            | _ ->
+                                              obs
+                                                (set_tm x1 (upd x1.tm t0 md))
+                                                ((||) (outside (m.a a1).apc)
+                                                  (nmem x1.prox a1)))
+                                         | None ->
+                                           let x0 =
+                                             set_thr x
+                                               (filter (fun a2 ->
+                                                 negb (Nat.eqb a2 c)) x.tsent)
+                                               x.prox
+                                           in
+                                           let md =
+                                             match (m.a c).apc with
+                                             | Susp ->
+                                               (match (m.a c).ahome with
+                                                | HSub k -> MKer k
+                                                | _ -> MKerX)
+                                             | _ -> MKerX
+                                           in
+                                           (match md with
+                                            | MKer k ->
+                                              acts
+                                                (set_tm x0 (upd x0.tm t0 md))
+                                                (match (m.sb k).spc_ with
+                                                 | SArm ->
+                                                   (Sub (k, false)) :: []
+                                                 | _ -> [])
+                                            | _ ->
+                                              obs
+                                                (set_tm x0 (upd x0.tm t0 md))
+                                                ((||) (outside (m.a c).apc)
+                                                  (nmem x0.prox c))))
+                                      | _ :: _ ->
+                                        let x0 =
+                                          set_thr x
+                                            (filter (fun a2 ->
+                                              negb (Nat.eqb a2 c)) x.tsent)
+                                            x.prox
+                                        in
+                                        let md =
+                                          match (m.a c).apc with
+                                          | Susp ->
+                                            (match (m.a c).ahome with
+                                             | HSub k -> MKer k
+                                             | _ -> MKerX)
+                                          | _ -> MKerX
+                                        in
+                                        (match md with
+                                         | MKer k ->
+                                           acts (set_tm x0 (upd x0.tm t0 md))
+                                             (match (m.sb k).spc_ with
+                                              | SArm -> (Sub (k, false)) :: []
+                                              | _ -> [])
+                                         | _ ->
+                                           obs (set_tm x0 (upd x0.tm t0 md))
+                                             ((||) (outside (m.a c).apc)
+                                               (nmem x0.prox c)))))
+                             else let x0 =
+                                    set_thr x
+                                      (filter (fun a1 -> negb (Nat.eqb a1 c))
+                                        x.tsent) x.prox
+                                  in
+                                  let md =
+                                    match (m.a c).apc with
+                                    | Susp ->
+                                      (match (m.a c).ahome with
+                                       | HSub k -> MKer k
+                                       | _ -> MKerX)
+                                    | _ -> MKerX
+                                  in
+                                  (match md with
+                                   | MKer k ->
+                                     acts (set_tm x0 (upd x0.tm t0 md))
+                                       (match (m.sb k).spc_ with
+                                        | SArm -> (Sub (k, false)) :: []
+                                        | _ -> [])
+                                   | _ ->
+                                     obs (set_tm x0 (upd x0.tm t0 md))
+                                       ((||) (outside (m.a c).apc)
+                                         (nmem x0.prox c)))
+                           | _ ->
+                             (match x.tm t0 with
+                              | MProxyP -> ok (set_tm x (upd x.tm t0 MKerX))
+                              | MRunP c ->
+                                obs (set_tm x (upd x.tm t0 MKerX))
+                                  ((||) (outside (m.a c).apc) (nmem x.prox c))
+                              | _ -> None)))
                      | XH ->
                        let (c, x1) =
                          match zassoc x.cmap obj with
@@ -2444,7 +3706,11 @@ let mkplan calm s e =
                            let c = add (mul (S (S O)) x.nco) (S O) in
                            (c, (set_cmap x ((obj, c) :: x.cmap) (S x.nco)))
                        in
-                       let x2 = set_tm x1 (upd x1.tm t0 (MRun c)) in
+                       let x2 =
+                         set_tm x1
+                           (upd x1.tm t0
+                             (if nmem x1.prox c then MProxy c else MRun c))
+                       in
                        (match x.tm t0 with
                         | MKer k ->
                           (match (m.sb k).spc_ with
@@ -2455,20 +3721,27 @@ let mkplan calm s e =
                              else None
                            | _ -> None)
                         | _ ->
-                          if pc_eqb (m.a c).apc Susp
-                          then acts
-                                 (match (m.a c).ahome with
-                                  | HCan _ ->
-                                    set_cnull x2
-                                      (upd x2.cnull (m.a c).afd
-                                        (m.tmr (m.a c).afd))
-                                  | HKCan _ ->
-                                    set_cnull x2
-                                      (upd x2.cnull (m.a c).afd
-                                        (m.tmr (m.a c).afd))
-                                  | _ -> x2)
-                                 (app (flush_for m c) ((Resume c) :: []))
-                          else obs x2 (outside (m.a c).apc)))
+                          if (&&) (pc_eqb (m.a c).apc Susp)
+                               (match (m.a c).ahome with
+                                | HSub _ -> true
+                                | _ -> false)
+                          then obs x2 (nmem x.prox c)
+                          else if pc_eqb (m.a c).apc Susp
+                               then acts
+                                      (match (m.a c).ahome with
+                                       | HCan _ ->
+                                         set_cnull x2
+                                           (upd x2.cnull (m.a c).afd
+                                             (m.tmr (m.a c).afd))
+                                       | HKCan _ ->
+                                         set_cnull x2
+                                           (upd x2.cnull (m.a c).afd
+                                             (m.tmr (m.a c).afd))
+                                       | _ -> x2)
+                                      (app (flush_for m c) ((Resume c) :: []))
+                               else obs x2
+                                      ((||) (outside (m.a c).apc)
+                                        (nmem x.prox c))))
                   | _ -> None)
                | _ :: _ -> None)))))
 
